@@ -273,6 +273,8 @@ type refStats struct {
 	MaxDepth   int
 	Expansions int
 	ZeroUnderOverflow bool // a zero-cost field under a multiplier product beyond maxInt (F-14a shape)
+	DupKeys    int  // field selections whose response key already occurred in the same AST selection set
+	DupUnder   int  // … of which have sub-selections of their own
 	Negative   bool // a negative resolver cost occurs (outside the property's quantifier)
 	Nodes      int
 }
@@ -300,7 +302,21 @@ func (e *refEnv) sels(ss *ast.SelectionSet, M *big.Int, ctx int, depth int, viaF
 	if depth > e.st.MaxDepth {
 		e.st.MaxDepth = depth
 	}
+	keys := map[string]bool{}
 	for _, s := range ss.Selections {
+		if f, ok := s.(*ast.Field); ok {
+			key := f.Name.Name
+			if f.Alias != nil {
+				key = f.Alias.Name
+			}
+			if keys[key] {
+				e.st.DupKeys++
+				if f.SelectionSet != nil && len(f.SelectionSet.Selections) > 0 {
+					e.st.DupUnder++
+				}
+			}
+			keys[key] = true
+		}
 		e.st.Nodes++
 		if e.st.Nodes > 200000 {
 			e.err = fmt.Errorf("expansion too large")
